@@ -206,6 +206,32 @@ def hooks_rule(repo):
         m = {n.func.attr: unparse(n.args[0]) for n in walk_no_nested(reg.node) if isinstance(n, ast.Call) and isinstance(n.func, ast.Attribute) and n.func.attr.startswith("register_")}
         ok = m == {"register_forward_hook": "_f_hook", "register_forward_pre_hook": "_fp_hook", "register_full_backward_hook": "_b_hook"}
         out.append((holds if ok else violation)("HOOKS", reg, role, str(m), reg.node))
+    # converse: a module whose type IS in the table is skipped only when it already carries the full-backward hook this code installs
+    role_skip = "a supported module is skipped only when it already carries this code's own backward hook (never because of somebody else's hooks)"
+    pm_ = parent_map(reg.node)
+    bad_skip, odd_skip, n_skip = None, None, 0
+    for r_ in walk_no_nested(reg.node):
+        if isinstance(r_, ast.Return) and r_.value is None:
+            n_skip += 1
+            ctx, x_ = [], r_
+            while x_ in pm_:
+                x_ = pm_[x_]
+                if isinstance(x_, ast.If):
+                    ctx.append(unparse(x_.test))
+                elif isinstance(x_, ast.For):
+                    ctx.append(unparse(x_.iter))
+            text = " ; ".join(ctx)
+            if "_forward_hooks" in text or "_forward_pre_hooks" in text or "_state_dict_hooks" in text:
+                bad_skip = bad_skip or (r_, text)
+            elif not ("_backward_hooks" in text or "handles" in text or "isinstance(module" in text):
+                odd_skip = odd_skip or (r_, text)
+    if bad_skip:
+        out.append(named("HOOKS", reg, role_skip, "the early return under `%s` also fires for a module that carries an unrelated forward / forward-pre hook "
+                         "(e.g. one that records activations): that layer gets the ordinary gradient instead of the rescale rule" % bad_skip[1][:80], bad_skip[0]))
+    elif odd_skip:
+        out.append(unrecognised("HOOKS", reg, role_skip, "early return under `%s`" % odd_skip[1][:80], odd_skip[0]))
+    else:
+        out.append(holds("HOOKS", reg, role_skip, "%d early return(s): own backward hook / type not in the table" % n_skip, reg.node, nontrivial=False))
     role = "captured activations are detached clones of the concatenated [examples; references] batch; the backward hook dispatches on the module type"
     fp, f, b = repo.func(D + "._fp_hook"), repo.func(D + "._f_hook"), repo.func(D + "._b_hook")
     t = [unparse(x.body[-1]) for x in (fp.node, f.node, b.node)]
@@ -509,3 +535,61 @@ def refgrad_rule(repo):
         return [named("REFGRAD", fi, role, "`%s` receives a tensor that already requires grad: references produced by a differentiable generator "
                       "(ersatz.shuffle) join the autograd graph of the examples" % unparse(bad[0])[:70], bad[0])]
     return [holds("REFGRAD", fi, role, "%d generator call(s), none on a tensor that requires grad" % len(calls), calls[0])]
+
+
+_FULL_REDUCERS = ("max", "min", "sum", "mean", "std", "var", "norm", "median", "amax", "amin", "any", "all", "prod")
+
+
+def batch_coupling_rule(repo, quals=None):
+    """The backward rules work on a batch that holds several examples (and their references) at once.  Every operation in them is
+    element-wise or along non-batch axes; a reduction over ALL elements of a captured activation / gradient (`t.max()`, `t.abs().sum()`,
+    `torch.mean(t)` without `dim`) folds the other rows of the batch into the value - what one example gets then depends on what else
+    is in its batch (batch size, co-batched examples, order).  Named deviation when such a reduction of module.input / module.output /
+    grad_input / grad_output (or of a local derived from them) occurs in a rule function."""
+    out = []
+    for q in quals or ("_nonlinear", "_softmax", "_maxpool", "_f_hook", "_fp_hook", "_b_hook"):
+        if not repo.has_func(D + "." + q):
+            continue
+        fi = repo.func(D + "." + q)
+        role = "no reduction over the whole batch inside a backward rule (each row is treated on its own)"
+        tainted = set()
+        for p_ in fi.params:
+            if p_ in ("grad_input", "grad_output", "module", "input", "output", "inputs", "outputs"):
+                tainted.add(p_)
+        changed = True
+        while changed:
+            changed = False
+            for n in ast.walk(fi.node):
+                if isinstance(n, ast.Assign):
+                    if any(isinstance(x, ast.Name) and x.id in tainted for x in ast.walk(n.value)):
+                        for t in n.targets:
+                            for x in ast.walk(t):
+                                if isinstance(x, ast.Name) and isinstance(x.ctx, ast.Store) and x.id not in tainted:
+                                    tainted.add(x.id)
+                                    changed = True
+        bad = None
+        for n in ast.walk(fi.node):
+            if isinstance(n, ast.Call):
+                recv = None
+                if isinstance(n.func, ast.Attribute) and n.func.attr in _FULL_REDUCERS:
+                    if isinstance(n.func.value, ast.Name) and n.func.value.id in ("torch", "numpy"):
+                        recv = n.args[0] if n.args else None
+                        rest = n.args[1:]
+                    else:
+                        recv = n.func.value
+                        rest = n.args
+                    has_dim = bool(rest) or any(k.arg in ("dim", "axis") for k in n.keywords)
+                    dim_e = rest[0] if rest else next((k.value for k in n.keywords if k.arg in ("dim", "axis")), None)
+                    dims = None
+                    if dim_e is not None:
+                        dims = [const_value(dim_e)] if not isinstance(dim_e, (ast.Tuple, ast.List)) else [const_value(e_) for e_ in dim_e.elts]
+                    reshaped = isinstance(recv, ast.Call) and isinstance(recv.func, ast.Attribute) and recv.func.attr in ("reshape", "view", "unflatten")
+                    over_batch = (not has_dim) or (dims is not None and 0 in dims and not reshaped)
+                    if recv is not None and over_batch and any(isinstance(x, ast.Name) and x.id in tainted for x in ast.walk(recv)):
+                        bad = bad or n
+        if bad is not None:
+            out.append(named("R-BATCH", fi, role, "`%s` reduces over every row of the batch: the value (and whatever is decided with it) depends on the other "
+                             "examples and references that happen to share the batch" % unparse(bad)[:60], bad))
+        else:
+            out.append(holds("R-BATCH", fi, role, "only element-wise operations / reductions with an explicit dim", fi.node, nontrivial=False))
+    return out
